@@ -14,56 +14,56 @@ import (
 
 func VerifHarness_C10_MarketSell() {
 	zzinv.Install()
-	k, _ := symKeeper()
+	k, _ := zzvSymKeeper()
 	req := &types.MsgSell{}
 	zzinv.RunDet(&k, req, func(ctx context.Context) (interface{}, error) { return k.Sell(ctx, req) })
 }
 
 func VerifHarness_C10_MarketUpdateSellOrders() {
 	zzinv.Install()
-	k, _ := symKeeper()
+	k, _ := zzvSymKeeper()
 	req := &types.MsgUpdateSellOrders{}
 	zzinv.RunDet(&k, req, func(ctx context.Context) (interface{}, error) { return k.UpdateSellOrders(ctx, req) })
 }
 
 func VerifHarness_C10_MarketCancelSellOrder() {
 	zzinv.Install()
-	k, _ := symKeeper()
+	k, _ := zzvSymKeeper()
 	req := &types.MsgCancelSellOrder{}
 	zzinv.RunDet(&k, req, func(ctx context.Context) (interface{}, error) { return k.CancelSellOrder(ctx, req) })
 }
 
 func VerifHarness_C10_MarketBuyDirect() {
 	zzinv.Install()
-	k, _ := symKeeper()
+	k, _ := zzvSymKeeper()
 	req := &types.MsgBuyDirect{}
 	zzinv.RunDet(&k, req, func(ctx context.Context) (interface{}, error) { return k.BuyDirect(ctx, req) })
 }
 
 func VerifHarness_C10_MarketAddAllowedDenom() {
 	zzinv.Install()
-	k, _ := symKeeper()
+	k, _ := zzvSymKeeper()
 	req := &types.MsgAddAllowedDenom{}
 	zzinv.RunDet(&k, req, func(ctx context.Context) (interface{}, error) { return k.AddAllowedDenom(ctx, req) })
 }
 
 func VerifHarness_C10_MarketRemoveAllowedDenom() {
 	zzinv.Install()
-	k, _ := symKeeper()
+	k, _ := zzvSymKeeper()
 	req := &types.MsgRemoveAllowedDenom{}
 	zzinv.RunDet(&k, req, func(ctx context.Context) (interface{}, error) { return k.RemoveAllowedDenom(ctx, req) })
 }
 
 func VerifHarness_C10_MarketGovSetFeeParams() {
 	zzinv.Install()
-	k, _ := symKeeper()
+	k, _ := zzvSymKeeper()
 	req := &types.MsgGovSetFeeParams{}
 	zzinv.RunDet(&k, req, func(ctx context.Context) (interface{}, error) { return k.GovSetFeeParams(ctx, req) })
 }
 
 func VerifHarness_C10_MarketGovSendFromFeePool() {
 	zzinv.Install()
-	k, _ := symKeeper()
+	k, _ := zzvSymKeeper()
 	req := &types.MsgGovSendFromFeePool{}
 	zzinv.RunDet(&k, req, func(ctx context.Context) (interface{}, error) { return k.GovSendFromFeePool(ctx, req) })
 }
@@ -71,7 +71,7 @@ func VerifHarness_C10_MarketGovSendFromFeePool() {
 // begin-block pruning: two executions at the same block time from the same state
 func VerifHarness_C10_MarketPruneSellOrders() {
 	zzinv.Install()
-	k, _ := symKeeper()
+	k, _ := zzvSymKeeper()
 	zz.ProcessState(&k)
 	run := func() (err error, panicked bool) {
 		defer func() {
